@@ -124,7 +124,7 @@ theorem refines (init : Mem) :
       have := hhold r0 hp; simp only at this; subst this
       have hq : csrOut c s r = latch c r := by simp [csrOut, hreg, hcsr]
       simp only [hact, if_true, Inv, next, hreg, hf, hq, csrFile]
-      refine ⟨r, rfl, hact, fun _ => rfl, ?_, ?_⟩
+      refine ⟨r, rfl, hact, fun _ => trivial, ?_, ?_⟩
       · simp only [latch, after, hregs]
       · simp only [latch, hregs]
     | false =>
